@@ -23,9 +23,10 @@ func init() { register("GcCompare", genGcCompare) }
 
 func genGcCompare(repo string) (string, error) {
 	cfg := &packages.Config{
-		Mode: packages.NeedName | packages.NeedFiles | packages.NeedSyntax,
-		Dir:  repo,
-		Env:  append(os.Environ(), "GOFLAGS=-mod=readonly", "GOPROXY=off"),
+		Mode:    packages.NeedName | packages.NeedFiles | packages.NeedSyntax,
+		Dir:     repo,
+		Env:     append(os.Environ(), "GOFLAGS=-mod=readonly", "GOPROXY=off"),
+		Overlay: overlayFromEnv(),
 	}
 	pkgs, err := packages.Load(cfg, "./pkg/core/stateroot")
 	if err != nil {
